@@ -27,6 +27,11 @@ type Str32 string
 type Bytes8 []byte
 type Bytes16B []byte
 type Bytes32 []byte
+type Bytes64 []byte
+type SliceU16L64 []uint16
+type Str64F struct {
+	S string `serix:",lenPrefix=uint64"`
+}
 type Arr4 [4]byte
 type Arr2C [2]byte
 type Arr1W [1]byte
@@ -51,6 +56,7 @@ type MapStrU16 map[Str8]uint16
 type InnerMap map[uint8]bool
 type MapNested map[int8]InnerMap
 type MapPtr map[uint16]*Pair
+type MapShape map[uint8]Shape
 
 // ---------------------------------------------------------------- structs
 
@@ -94,6 +100,27 @@ type EmbS struct {
 type PtrEmb struct {
 	*Base `serix:""`
 	K     uint8 `serix:""`
+}
+
+type EmbI struct {
+	Shape `serix:",inlined"`
+	K     uint8 `serix:""`
+}
+
+type OptEmpty struct {
+	O *Empty `serix:",optional"`
+}
+
+type Flag bool
+type Amount uint64
+type Small int8
+type Ratio float32
+
+type Named struct {
+	F Flag   `serix:""`
+	A Amount `serix:""`
+	S Small  `serix:""`
+	R Ratio  `serix:""`
 }
 
 type OptU8 struct {
@@ -284,6 +311,12 @@ func init() {
 	must(api.RegisterTypeSettings(Bytes32{}, lp(b32)))
 	add("Bytes32", Bytes32{})
 
+	must(api.RegisterTypeSettings(Bytes64{}, lp(serix.LengthPrefixTypeAsUint64)))
+	add("Bytes64", Bytes64{})
+	must(api.RegisterTypeSettings(SliceU16L64{}, lp(serix.LengthPrefixTypeAsUint64).WithMaxLen(2)))
+	add("SliceU16L64", SliceU16L64{})
+	add("Str64F", Str64F{})
+
 	add("Arr4", Arr4{})
 	must(api.RegisterTypeSettings(Arr2C{}, ts().WithObjectType(uint8(2))))
 	add("Arr2C", Arr2C{})
@@ -338,6 +371,8 @@ func init() {
 	must(api.RegisterTypeSettings(PtrEmb{}, ts().WithObjectType(uint8(0))))
 	add("PtrEmb", PtrEmb{})
 	add("OptU8", OptU8{})
+	add("OptEmpty", OptEmpty{})
+	add("Named", Named{})
 	add("Holder", Holder{})
 	add("Tagged", Tagged{})
 
@@ -360,6 +395,9 @@ func init() {
 		ValidationMode: serializer.ArrayValidationModeAtMostOneOfEachTypeByte,
 	})))
 	add("Shapes", Shapes{})
+	add("EmbI", EmbI{})
+	must(api.RegisterTypeSettings(MapShape{}, lp(b8)))
+	add("MapShape", MapShape{})
 	add("OptShape", OptShape{})
 
 	must(api.RegisterTypeSettings(WA{}, ts().WithObjectType(uint32(1))))
